@@ -62,6 +62,14 @@ def _hook(ctx: Ctx, run: BuilderRun, mod: Any, valid_subject: bool, valid_servic
                 k = None
             if k is None and isinstance(e.func, ast.Name) and e.func.id in f.env and isinstance(f.env[e.func.id], ClassInfo):
                 k = f.env[e.func.id]
+            if k is None and isinstance(e.func, (ast.IfExp, ast.Subscript)):
+                # the class is computed in place: `(A if c else B)(...)`, `TABLE[key](...)`
+                try:
+                    kv = f.fold(e.func)
+                except Unfoldable:
+                    kv = None
+                if isinstance(kv, ClassInfo):
+                    k = kv
             if isinstance(k, ClassInfo) and k.name in ATTRIBUTES:
                 bound = _bind(ctx, k, [f.fold(a) for a in e.args], {x.arg: f.fold(x.value) for x in e.keywords if x.arg})
                 a_ = Sym(_isa_=isa_of(ctx, "_serializable._attribute." + k.name), _kind_=k.name, **bound)
